@@ -578,6 +578,7 @@ def run(rep: Report, tier: str) -> None:
 	rule_indent_unit(rep, tz)
 	rule_lookahead_bounded(rep, tz)
 	rule_post_filter_passes(rep, tz)
+	rule_token_text_is_its_span(rep, tz, default_definition(idx))
 	rule_context_fresh(rep, tz)
 	rule_lexer_state(rep, idx)
 	rule_unary_minus(rep, idx)
@@ -1179,3 +1180,89 @@ def rule_post_filter_passes(rep: Report, tz) -> None:
 		steps_back = steps_back or any(isinstance(s_, ast.AugAssign) and isinstance(s_.op, ast.Sub) and isinstance(s_.value, ast.Constant) and s_.value.value == 1 for s_ in branch)
 	where = (TOKENIZER_PY, deletes[0].lineno)
 	r.check(bool(merges) and steps_back, 'passes', where, 'post_filter sweeps the token list ONCE and asks every filter per token: the positional end filter (`BEGIN|END`) judges a line break while the comment behind it is still in the list, and when that comment is removed later the two line breaks around it are merged into a token BEHIND the cursor, which is never judged again — `a = 1\\n# tail\\n` ends in an extra NEWLINE (CPython: none; the parser rejects the module)', unparse(deletes[0])[:80])
+
+
+def rule_token_text_is_its_span(rep: Report, tz, DEFN) -> None:
+	"""`concatenating the raw lexer tokens reproduces the source and each token's recorded span addresses exactly its text`: a raw token is built as
+	Token(type, <text>, SourceMap.make(source, b, e)) and the lexer resumes at the returned position. The text must be source[b:e] — the very slice
+	the span names — and the position handed back must be e. A text that is trimmed, case-folded or otherwise derived from the slice (`.rstrip()` to
+	drop the CR of CRLF) leaves characters of the source in no token, and the span is wider than the text it claims to address."""
+	r = rep.rule('C13/raw-token-text-is-the-slice-of-its-span', 'every Token(type, text, SourceMap.make(source, b, e)) built by the Lexer has text == source[b:e] (after expanding locals), and the function returns e as the next position', floor=5)
+	lx = tz.cls('Lexer')
+	if lx is None:
+		r.skip('Lexer', (TOKENIZER_PY, 1), 'class Lexer vanished')
+		return
+	for defs_ in lx.methods.values():
+		for f in defs_:
+			for c_ in walk_no_nested(f.node):
+				if not (isinstance(c_, ast.Call) and unparse(c_.func) == 'Token' and len(c_.args) == 3):
+					continue
+				sm = c_.args[2]
+				if not (isinstance(sm, ast.Call) and unparse(sm.func).endswith('SourceMap.make') and len(sm.args) == 3):
+					continue
+				src_p, b_, e_ = unparse(sm.args[0]), unparse(sm.args[1]), unparse(sm.args[2])
+				text = c_.args[1]
+				# every value the text can have: a local assigned on several paths, or a conditional expression
+				alts: list[ast.AST] = []
+
+				def unreachable(a: ast.AST, name: str) -> bool:
+					"""an assignment guarded by `<name>.count(K)` / `K in <name>` where the slice was scanned character by character against one charset of
+					the token definition (`source[end] not in self._definition.<S>: break`) and K contains a character outside S"""
+					from vlib.match import path_conditions as _pc
+					scans = [unparse(x.comparators[0]).split('.')[-1] for x in walk_no_nested(f.node) if isinstance(x, ast.Compare) and len(x.ops) == 1 and isinstance(x.ops[0], ast.NotIn) and unparse(x.left).startswith(f'{src_p}[') and '_definition.' in unparse(x.comparators[0])]
+					scans += [unparse(a_).split('.')[-1] for x in walk_no_nested(f.node) if isinstance(x, ast.Call) and isinstance(x.func, ast.Attribute) and isinstance(x.func.value, ast.Name) and x.func.value.id in ('self', 'cls') and any(unparse(y) == src_p for y in x.args) for a_ in x.args if unparse(a_).startswith('self._definition.')]
+					if len(set(scans)) != 1 or scans[0] not in DEFN.fields or not isinstance(DEFN.fields[scans[0]], str):
+						return False
+					charset = DEFN.fields[scans[0]]
+					for c2, pol in _pc(f.node, a):
+						if not pol:
+							continue
+						needle = None
+						if isinstance(c2, ast.Call) and isinstance(c2.func, ast.Attribute) and c2.func.attr == 'count' and unparse(c2.func.value) == name and c2.args:
+							needle = const_str(c2.args[0])
+						elif isinstance(c2, ast.Compare) and len(c2.ops) == 1 and isinstance(c2.ops[0], ast.In) and unparse(c2.comparators[0]) == name:
+							needle = const_str(c2.left)
+						if isinstance(needle, str) and any(ch not in charset for ch in needle):
+							return True
+					return False
+
+				def collect(x: ast.AST, depth: int = 0) -> None:
+					if isinstance(x, ast.IfExp):
+						collect(x.body, depth)
+						collect(x.orelse, depth)
+					elif isinstance(x, ast.Name) and depth < 3:
+						defs2 = [a.value for a in walk_no_nested(f.node) if isinstance(a, (ast.Assign, ast.AnnAssign)) and a.value is not None and any(isinstance(t, ast.Name) and t.id == x.id for t in (a.targets if isinstance(a, ast.Assign) else [a.target])) and not unreachable(a, x.id)]
+						if defs2:
+							for d_ in defs2:
+								collect(d_, depth + 1)
+						else:
+							alts.append(x)
+					else:
+						alts.append(x)
+				collect(text)
+				key = f'{f.name}:{unparse(c_.args[0])[:30]}'
+				want = f'{src_p}[{b_}:{e_}]'
+				# operations that are the identity on the scanned slice: the slice holds only characters of ONE charset of the token definition (the scan
+				# loop `source[end] not in self._definition.<S>: break`), so removing / splitting at a needle with a character outside S changes nothing
+				scans_ = [unparse(x.comparators[0]).split('.')[-1] for x in walk_no_nested(f.node) if isinstance(x, ast.Compare) and len(x.ops) == 1 and isinstance(x.ops[0], ast.NotIn) and unparse(x.left).startswith(f'{src_p}[') and '_definition.' in unparse(x.comparators[0])]
+				# ... or the scan is delegated: `end = self._scan_while(source, begin, self._definition.white_space)`
+				scans_ += [unparse(a_).split('.')[-1] for x in walk_no_nested(f.node) if isinstance(x, ast.Call) and isinstance(x.func, ast.Attribute) and isinstance(x.func.value, ast.Name) and x.func.value.id in ('self', 'cls') and any(unparse(y) == src_p for y in x.args) for a_ in x.args if unparse(a_).startswith('self._definition.')]
+				charset_ = DEFN.fields.get(scans_[0]) if len(set(scans_)) == 1 and isinstance(DEFN.fields.get(scans_[0]), str) else None
+
+				def simplify(x: ast.AST, depth: int = 0) -> ast.AST:
+					if charset_ is None or depth > 4:
+						return x
+					if isinstance(x, ast.Name):
+						ds = [a.value for a in walk_no_nested(f.node) if isinstance(a, (ast.Assign, ast.AnnAssign)) and a.value is not None and any(isinstance(t, ast.Name) and t.id == x.id for t in (a.targets if isinstance(a, ast.Assign) else [a.target]))]
+						ds = [simplify(d_, depth + 1) for d_ in ds]
+						if ds and all(unparse(d_) == unparse(ds[0]) for d_ in ds):
+							return ds[0]
+						return x
+					if isinstance(x, ast.Call) and isinstance(x.func, ast.Attribute) and x.func.attr == 'replace' and len(x.args) == 2 and isinstance(const_str(x.args[0]), str) and any(ch not in charset_ for ch in const_str(x.args[0])):
+						return simplify(x.func.value, depth + 1)
+					if isinstance(x, ast.Call) and isinstance(x.func, ast.Attribute) and x.func.attr == 'join' and const_str(x.func.value) == '' and len(x.args) == 1 and isinstance(x.args[0], ast.Call) and isinstance(x.args[0].func, ast.Attribute) and x.args[0].func.attr == 'split' and x.args[0].args and isinstance(const_str(x.args[0].args[0]), str) and any(ch not in charset_ for ch in const_str(x.args[0].args[0])):
+						return simplify(x.args[0].func.value, depth + 1)
+					return x
+				alts = [simplify(a) for a in alts]
+				bad = [a for a in alts if unparse(a) != want and not (isinstance(a, ast.Subscript) and unparse(a.value) == src_p and not isinstance(a.slice, ast.Slice) and unparse(a.slice) == b_)]
+				r.check(not bad, key, (TOKENIZER_PY, c_.lineno), f'the token built in {f.name} records the span [{b_}, {e_}) but its text can be `{unparse(bad[0])[:60] if bad else ""}`, not `{want}`: the characters the text leaves out (trailing blanks or the CR behind a comment) are consumed — the lexer resumes behind them — yet appear in no token, so joining the raw tokens no longer reproduces the source and the span of the token is wider than its text', unparse(c_)[:120])
